@@ -17,13 +17,15 @@ PREPROC = ['include', 'require', 'create_memzone', 'define', 'if', 'elif', 'else
 MN_POOL = ['ld', 'lda', 'ld.w', 'ld.b', 'st', 'sta', 'mov', 'mov16', 'a', 'x', 'jmp', 'j', 'add.c', 'adc', 'push2', 'p', 'inc', 'in',
            'sub_w', 'br.eq', 'br', 'q7', '_brk', 'ld_', '_t_', 'push.b', 'push.r',
            # mnemonics that contain the spelling of a keyword of the constant-definition syntax
-           'bequ', 'sequ2', 'equ8', 'MvX', 'SWP']
+           'bequ', 'sequ2', 'equ8', 'MvX', 'SWP',
+           # names (or dotted parts of names) that begin with a digit
+           '2dup', '0branch', 'ld.8', '8bit.x']
 REG_POOL = ['a', 'b', 'x', 'sp', 'hl', 'ix', 'r0', 'r1', 'r10', 'mar', 'acc', 'sp_', '_fp', 'b0', 'b1', 'b10', 'ah', 'bh', 'c0h',
             # accepted register names that are assembler keywords in another letter case
             'ZERO', 'Fill', 'ORG', 'Byte0']
 MACRO_POOL = ['push2x', 'mov2', 'ld2', 'm.dot', 'jsr2', 'st', '_push2', 'call_', 'push', 'add', 'mov.w', 'ld.x', 'jequ',
               # spelled with capitals in the configuration: a mnemonic all the same
-              'LdAB', 'PUSHW']
+              'LdAB', 'PUSHW', '2swap', 'st.16']
 
 
 # free text of the definition that ends up inside generated JSON / XML / YAML files
@@ -266,8 +268,9 @@ class C20(core.Check):
                         if isinstance(r, tuple):
                             hit = nm[max(r[0], 0):r[1]]
                             nxt = nm[r[1]:r[1] + 1]
-                            if hit.lower() in {x.lower() for x in words} and r[0] == 0 and not (nxt.isalnum() or nxt == '_'):
-                                continue       # a real vocabulary word followed by punctuation, e.g. `br` in `br.e`
+                            prv = nm[r[0] - 1:r[0]] if r[0] > 0 else ''
+                            if hit.lower() in {x.lower() for x in words} and not (prv.isalnum() or prv == '_') and not (nxt.isalnum() or nxt == '_'):
+                                continue       # a real vocabulary word set off by punctuation, e.g. `br` in `br.e`, `x` in `x8bit.x`
                             why = 'dot-unescaped' if '.' in w and ('x' in nm or '_' in nm) and len(nm) == len(w) else 'other'
                             found.append((f'near-miss-classified/{cls}/{why}', {'word': nm, 'near': w, 'span': r, 'pattern': pats.get(cls)}))
         # words the definition uses that belong to none of the three classes (enumeration keys, predefined names) are not
